@@ -318,6 +318,16 @@ func randSym(rng *rand.Rand) []int {
 	for i := 1; i < n; i++ {
 		b[i] = al[rng.Intn(len(al))]
 	}
+	if rng.Intn(4) == 0 {
+		// the format carries symbols of any bytes: punctuation (format verbs, quotes, template braces, backslashes) and non-ASCII
+		// bytes - everything but the two characters the listing itself is made of (space, line feed)
+		wide := "%%%!\"#$&'()*+,-./:;<=>?@[\\]^`{|}~\x80\xc3\xa9\xff\t%sdvx"
+		for i := 0; i < n; i++ {
+			if i == 0 || rng.Intn(3) == 0 {
+				b[i] = wide[rng.Intn(len(wide))]
+			}
+		}
+	}
 	return ints(b)
 }
 
